@@ -1,8 +1,8 @@
 /-
 Model of insights/client/apps/ansible/playbook_verifier/serializer.py (PlaybookSerializer,
 lines 12-103) and of the verification logic of playbook_verifier/__init__.py
-(serialize_play 110-122 on Python >= 3.12, exclude_dynamic_elements 157-204,
-verify_play 242-259, get_play_revocation_list 284-294, verify 297-326).
+(serialize_play 110-122 on Python >= 3.12, exclude_dynamic_elements 157-210 (after fix 5a7421c),
+verify_play, get_play_revocation_list, verify).
 
 Values.  `PVal` is what the ruamel round-trip loader hands to the verifier for the types
 the property quantifies over: strings, integers (unbounded), booleans, null, sequences and
@@ -307,7 +307,7 @@ def setStr (k : Str) (v : PVal) : List (Scalar × PVal) → List (Scalar × PVal
   | [] => []
   | (k', v') :: r => if k' = .str k then (k', v) :: r else (k', v') :: setStr k v r
 
-/-! ### exclude_dynamic_elements (__init__.py:157-204) -/
+/-! ### exclude_dynamic_elements (__init__.py:157-210) -/
 
 /-- `verr` = PlaybookVerificationError; `crash` = any other Python exception escaping -/
 inductive Err where
@@ -361,11 +361,34 @@ def exclLoop : Play → List Str → Except Err Play
     | .ok r => exclLoop r es
     | .error x => .error x
 
-/-- the value of `vars/insights_signature_exclude` as line 170 and 176 see it -/
+/-- the value of `vars/insights_signature_exclude` as lines 170-182 see it (after fix 5a7421c) -/
 inductive ExclList where
-  | missing                 -- `not in` is true: verification error
+  | missing                 -- `vars` absent or not a mapping, or the key is not in it: verification error
   | text (e : Str)          -- a string: split on ','
-  | unusable                -- present but `.split` / indexing / `in` raises something else
+  | nonstring               -- present but not a string: verification error
+deriving Repr
+
+def exclList (play : Play) : ExclList :=
+  match lookupStr sVars play with
+  | some (.map vs) =>
+    (match lookupStr sExclude vs with
+     | none => .missing
+     | some (.sc (.str e)) => .text e
+     | some _ => .nonstring)
+  | _ => .missing             -- play.get('vars', {}) = {}  or  not isinstance(play_vars, dict)
+
+def exclude (play : Play) : Except Err Play :=
+  match exclList play with
+  | .missing => .error .verr
+  | .nonstring => .error .verr
+  | .text e => exclLoop play (splitOn ',' e)
+
+/-! #### the code before fix 5a7421c (kept only for the regression witness in Props/C18) -/
+
+inductive ExclListOld where
+  | missing                 -- `not in` is true: verification error
+  | text (e : Str)
+  | unusable                -- present but `.split` / indexing / `in` raised something else
 deriving Repr
 
 def seqHasStr (k : Str) : List PVal → Bool
@@ -373,9 +396,9 @@ def seqHasStr (k : Str) : List PVal → Bool
   | .sc (.str s) :: r => s = k || seqHasStr k r
   | _ :: r => seqHasStr k r
 
-def exclList (play : Play) : ExclList :=
+def exclListOld (play : Play) : ExclListOld :=
   match lookupStr sVars play with
-  | none => .missing                                   -- play.get('vars', {}) = {}
+  | none => .missing
   | some (.map vs) =>
     (match lookupStr sExclude vs with
      | none => .missing
@@ -385,13 +408,13 @@ def exclList (play : Play) : ExclList :=
   | some (.seq xs) => if seqHasStr sExclude xs then .unusable else .missing     -- list membership, then list['…']
   | some (.sc _) => .unusable                          -- `in` on int / bool / None: TypeError
 
-def exclude (play : Play) : Except Err Play :=
-  match exclList play with
+def excludeOld (play : Play) : Except Err Play :=
+  match exclListOld play with
   | .missing => .error .verr
   | .unusable => .error .crash
   | .text e => exclLoop play (splitOn ',' e)
 
-/-! ### verify_play (242-259), get_play_revocation_list (284-294), verify (297-326) -/
+/-! ### verify_play (248-265), get_play_revocation_list (290-300), verify (303-332) -/
 
 /-- presence checks + exclusion; returns the signed text and the signature value -/
 def verifyPlay (play : Play) : Except Err (Str × PVal) :=
@@ -413,7 +436,7 @@ variable {D : Type} [DecidableEq D]
    `hashOf item` = `bytearray.fromhex(item['hash'])`, `none` when that raises. -/
 variable (H : Str → D) (sigDecodes : PVal → Bool) (sigValid : D → PVal → Bool) (hashOf : PVal → Option D)
 
-/-- `verify_play` including `execute_verification` (207-239): (GPG's verdict, digest) -/
+/-- `verify_play` including `execute_verification` (213-245): (GPG's verdict, digest) -/
 def verifyPlayFull (play : Play) : Except Err (Bool × D) :=
   match verifyPlay play with
   | .error e => .error e
